@@ -72,6 +72,13 @@ ASSUMPTIONS = [
     "optimizer_params given or not); optimiser steps are no-ops and reset_recon is followed by re-installing the truth (instance-level "
     "wrappers); at every call: loss at the truth zero against the dataset's correct centred targets, prediction = simulated data, every "
     "batch loss equal to a fresh object's (own dataset) for the same batch order",
+    "entry points: per configuration the problem is set up twice more through the alternative public entry points (dataset preprocessing "
+    "delegated to ptycho.preprocess with com_fit_function / force_com_rotation / force_com_transpose / obj_padding_px / vectorized / plot_* "
+    "passed there; looped COM; object via ObjectPixelated.from_array; single-mode probe via ProbePixelated.from_array only; slice thicknesses "
+    "via the ptycho.slice_thicknesses attribute; reconstruct options batch_size / optimizer_params / constraints via attributes) — com_fit, "
+    "rotation/transpose, padding/shape, positions, mean intensity, centred targets, descan shifts, propagators, predictions must equal the "
+    "primary route (exactly, 1e-5 where the looped COM feeds a `constant` fit) and the loss at the truth must be zero there too; "
+    "padded_diffraction_intensities_shape is not exercised (Dataset.pad keyword defect noted in DESIGN §8 #23, outside the quantifier)",
     "strict increase is measured at random perturbations only (not a theorem: it depends on the perturbation not being a symmetry); "
     "stationarity / autograd gradients are not evaluated",
 ]
@@ -316,6 +323,69 @@ def history_stream(ctx, case, cfg, p, pd, data, truth, mask, mean_I, pix, applic
                     ctx.pred_fail(key("history-prediction"), f"predicted intensities differ from the simulated data at call {k} of a reconstruct() history", hcase,
                                   observed=f"max|pred - data|/scale={worst_pred:.4g}", required=f"<= {TOL32:g}")
     cp.install_truth(p, cfg, *truth)
+
+
+def entry_point_stream(ctx, case, cfg, p, pd, data, truth, mask, mean_I, pix, applicable, clipped, key, rng, full_pred):
+    """the same problem through the alternative public entry points of every step (dataset preprocessing delegated to
+    ptycho.preprocess with every forwarded argument, looped COM, object via from_array, probe via constructor only, slice
+    thicknesses via attribute, reconstruct options via attributes): observables, predictions and the loss at the truth must
+    agree with the primary route, and the loss at the truth must be zero there too."""
+    phi, probe_lib = truth
+    n = pd.num_gpts
+    r0, r1 = cfg["roi"]
+    gr, gc = cfg["scan"]
+    K, S = cfg["modes"], cfg["slices"]
+    routes = [{"delegated": True, "vectorized": True, "obj_from_array": rng.chance(0.5), "probe_setter": True, "dz_attribute": rng.chance(0.5)},
+              {"delegated": rng.chance(0.7), "vectorized": rng.chance(0.5), "obj_from_array": rng.chance(0.5),
+               "probe_setter": not (K == 1 and rng.chance(0.7)), "dz_attribute": rng.chance(0.5)}]
+    for route in routes:
+        sig = ",".join(f"{k}={int(bool(v))}" for k, v in sorted(route.items()) if k != "dz_attribute" or S > 1)
+        ctx.dist[f"entry.{sig}"] += 1
+        rcase = {**case, "route": route}
+        q = cp.make_ptycho_alternative(cfg, data.reshape(gr, gc, r0, r1), probe_lib, phi, route)
+        qd = q.dset
+        ctx.count()
+
+        def differ(name, a, b, tol):
+            a, b = np.asarray(a, dtype=np.float64), np.asarray(b, dtype=np.float64)
+            d = float("inf") if a.shape != b.shape else (maxabs(a - b) / max(1.0, maxabs(a)) if a.size else 0.0)
+            ctx.stat_max(f"entry.differs[{name}]", d)
+            ctx.count()
+            if not (d <= tol):
+                ctx.pred_fail(f"entry-points-differ:{name}:delegated={route['delegated']}", f"{name} depends on the entry point the problem is set up through", rcase,
+                              observed=f"relative difference {d:.4g} (route {sig})", required=f"<= {tol:g}")
+        tolp = 0.0 if route["vectorized"] or cfg["com"] == "no_shift" else 1e-5
+        differ("com_fit", qd.com_fit, pd.com_fit, tolp)
+        differ("rotation/transpose", [qd.com_rotation_rad, float(qd.com_transpose)], [pd.com_rotation_rad, float(pd.com_transpose)], 0.0)
+        differ("obj_padding/shape", list(q.obj_padding_px) + list(q.obj_shape_full), list(p.obj_padding_px) + list(p.obj_shape_full), 0.0)
+        differ("scan_positions", qd.initial_scan_positions_px.numpy(), pd.initial_scan_positions_px.numpy(), 0.0)
+        differ("mean_intensity", [qd.mean_diffraction_intensity], [pd.mean_diffraction_intensity], 0.0)
+        differ("centred_amplitudes", qd.centered_amplitudes.numpy() / np.sqrt(pix), pd.centered_amplitudes.numpy() / np.sqrt(pix), tolp)
+        differ("centred_intensities", qd.centered_intensities.numpy() / pix, pd.centered_intensities.numpy() / pix, tolp)
+        differ("descan_shifts", qd.descan_shifts.detach().numpy(), pd.descan_shifts.detach().numpy(), max(tolp, 0.0))
+        if S > 1:
+            differ("propagators", np.abs(q.propagators.numpy() - p.propagators.numpy()), np.zeros(tuple(p.propagators.shape)), 0.0)
+        if not route["probe_setter"]:
+            differ("probe(constructor only)", q.probe_model.probe.detach().numpy() / np.sqrt(mean_I), p.probe_model.probe.detach().numpy() / np.sqrt(mean_I), 1e-5)
+        full = cp.run_pipeline(q, "l2_amplitude", n)[0]
+        differ("predicted_intensities", full["pred"] / pix, full_pred / pix, 1e-5 if not route["probe_setter"] else 1e-6)
+        b = rng.choice([n, 1, rng.randint(2, max(2, n - 1))])
+        for lt in cp.LOSS_TYPES:
+            tol = TOL_L1 if "l1" in lt else TOL_L2
+            recs = cp.reconstruct_via_attributes(q, lt, b) if lt == rng.choice(list(cp.LOSS_TYPES)) or lt == "l2_intensity" else cp.run_pipeline(q, lt, b)
+            worst = 0.0
+            for r in recs:
+                bi = r["indices"]
+                sc = true_scale(pd, lt, bi, mask)
+                res = amplitude_residual(lt, data[bi], mask, len(bi), n, mean_I)
+                worst = max(worst, abs(r["loss"] - res) / sc if sc > 0 else float("inf"))
+                ctx.count()
+            if applicable and not clipped:
+                ctx.stat_max(f"entry.loss_at_truth_rel[{lt}]", worst)
+                if not (worst <= (tol if route["probe_setter"] else max(tol, 1e-8))):
+                    ctx.pred_fail(key("entry-loss-at-truth") if clipped else f"entry-loss-at-truth:delegated={route['delegated']}:{cfg['com']}",
+                                  f"{lt} loss at the ground truth is not zero when the problem is set up through the alternative entry points", {**rcase, "loss_type": lt, "batch_size": b},
+                                  observed=f"|loss - eps residual|/scale={worst:.4g} (route {sig})", required=f"<= {tol:g}")
 
 
 def amplitude_residual(lt, I, mask, b, n, mean_I):
@@ -575,6 +645,8 @@ def _pipeline_case(ctx, drv, case, light=False):
         ml = b2f(ask(drv, {"op": "loss", "loss_type": lt, "preds": [enc_rows(x) for x in recs[0]["pred"]],
                            "targets": [enc_rows(x) for x in p.dset.targets.double().numpy()], "mask": enc_rows(mask), "num_gpts": n, "mean_intensity": f2b(mean_I)}))
         corr(ctx, f"loss-value[{lt}]", case, np.array([ml]), np.array([recs[0]["loss"]]), TOL32, note="at the truth")
+    # alternative public entry points of every step must give the same problem
+    entry_point_stream(ctx, case, cfg, p, pd, data, (phi, probe_lib), mask, mean_I, pix, applicable, clipped, key, rng, full["pred"])
     # histories of real reconstruct() calls on this one object (state left behind by earlier calls must not matter)
     history_stream(ctx, case, cfg, p, pd, data, (phi, probe_lib), mask, mean_I, pix, applicable, clipped, key, rng)
     # perturbations: 3 of the object, 2 of the probe
